@@ -22,7 +22,7 @@ NOGLU = tuple(i for i in R.IDS if i != 'Glucose')
 
 
 def required(tier):
-    return ['dH', 'dH:tagged', 'dH:wt', 'isothermal', 'isothermal-literal', 'adiabatic', 'adiabatic:Q', 'comb:parallel', 'comb:series', 'comb:system']
+    return ['dH', 'dH:tagged', 'dH:wt', 'isothermal', 'isothermal-literal', 'adiabatic', 'adiabatic:Q', 'adiabatic:no-conversion+Q', 'comb:parallel', 'comb:series', 'comb:system']
 
 
 def gen_case(rng):
@@ -59,11 +59,18 @@ def gen_case(rng):
     flows = {i: round(10 ** rng.uniform(2.5, 3.5), 3) for i in allowed}   # plentiful co-reactants: every side stays feasible
     for m in (members if comb != 'system' else [r for mm in members for r in mm['rx']]):
         flows[m['reactant']] = round(10 ** rng.uniform(0, 1.3), 4)
+    # boundary of the quantifier: nothing converts (X = 0 everywhere, or the reactants are absent from the feed) while heat may still be added
+    noconv = None
+    if kind in ('iso', 'adiabatic') and rng.random() < 0.15:
+        noconv = rng.choice(['X=0', 'reactant-absent'])
+        for m in (members if comb != 'system' else [r for mm in members for r in mm['rx']]):
+            if noconv == 'X=0': m['X'] = 0.0
+            else: flows[m['reactant']] = 0.0
     T = 298.15 if kind == 'literal' else round(rng.uniform(280, 450), 2)
     Q = 0.0
     if kind == 'adiabatic' and rng.random() < 0.6: Q = rng.choice([-1, 1]) * 10 ** rng.uniform(3, 6)
     return {'kind': kind, 'comb': comb, 'members': members, 'tagged': tagged, 'phmap': phmap, 'basis': basis, 'flows': flows,
-            'phase': phase, 'T': T, 'P': rng.choice([101325., 5e4, 5e5]), 'Q': Q}
+            'phase': phase, 'T': T, 'P': rng.choice([101325., 5e4, 5e5]), 'Q': Q, 'noconv': noconv}
 
 
 def latent(chem, phase):
@@ -113,6 +120,7 @@ def run_case(case, rec):
     ch = {c.ID: c for c in th.chemicals}
     kind = case['kind']
     tag = f'{case["comb"]}/{case["basis"]}/{"tagged" if case["tagged"] else "phase-less"}'
+    if case.get("noconv"): tag += "/no-conversion"
     try:
         rx = build(case, th)
     except Exception as e:
@@ -190,6 +198,7 @@ def run_case(case, rec):
     rec.check(res <= 1e-5 * C1 + 1e-12 * abs(Hnet0), 'adiabatic', tag + ('/Q' if Q else ''), f'Hnet after {Hnet1!r} != Hnet before + Q = {Hnet0 + Q!r} (residual {res:.3g} kJ/hr, C={C1:.4g} kJ/hr/K, T {case["T"]} -> {T1:.3f})',
               residual=res / max(C1, 1e-300))
     if Q: rec.hit('adiabatic:Q')
+    if case.get('noconv'): rec.hit('adiabatic:no-conversion' + ('+Q' if Q else ''))
     rec.mark_nontrivial(case_hash(case))
 
 
